@@ -21,8 +21,9 @@ from lib import numordcorr
 
 PROP = 'C04'
 LEVEL = 'proof'
-PROPS_MODULES = ['RTV.Props.C04', 'RTV.Props.C04Cjk', 'RTV.Props.C04Big', 'RTV.Props.C04Big2']
-GEN = ['nummaps', 'chartables', 'numcjk']
+PROPS_MODULES = ['RTV.Props.C04', 'RTV.Props.C04Cjk', 'RTV.Props.C04Big', 'RTV.Props.C04Big2', 'RTV.Props.C04Text',
+                 'RTV.Props.C04TextEu']
+GEN = ['nummaps', 'chartables', 'numcjk', 'numfrac', 'regexes', 'numalts']
 REQUIRED_THEOREMS = ['english_value', 'english_cardinal', 'english_ordinal', 'english_sub1000', 'spell_words_in_maps',
                      'spanish_sub1000', 'portuguese_sub1000', 'german_sub1000', 'dutch_sub1000',
                      'french_sub1000_partial', 'french_plural_cents_witness', 'italian_sub1000_partial',
@@ -38,13 +39,20 @@ REQUIRED_THEOREMS = ['english_value', 'english_cardinal', 'english_ordinal', 'en
                      'italian_cardinal_partial', 'italian_tre_milioni_witness', 'scale_words_in_maps_fr_it',
                      'german_ordinal_sub1000', 'german_ordinal_sub1e6', 'dutch_ordinal_sub1000', 'portuguese_ordinal_sub1000', 'french_ordinal_sub1000',
                      'spanish_ordinal_sub1000_partial', 'spanish_decimoseptimo_witness', 'italian_ordinal_sub1000_partial',
-                     'italian_ordinal_witness']
+                     'italian_ordinal_witness',
+                     # RTV.Props.C04Text / C04TextEu: the tokeniser inside the statement (en, es, fr, de; samples)
+                     'alts_are_pattern', 'spell_ignores_hyphen', 'english_tokens_sample', 'english_text_sample',
+                     'es_tokens_sample', 'fr_tokens_sample', 'de_tokens_sample', 'es_ord_tokens_sample', 'fr_ord_tokens_sample',
+                     'de_ord_tokens_sample', 'spanish_text_sample', 'german_text_sample', 'french_text_sample_partial',
+                     'german_ord_text_sample', 'french_ord_text_sample', 'spanish_ord_text_sample_partial',
+                     'french_cents_lost_by_tokeniser', 'german_ordinal_ending_lost_by_tokeniser',
+                     'spanish_decimoseptimo_not_tokenised']
 RULE = ('unit: __get_int_value on every English numeral of the pipeline set + seeded token lists over each '
         "culture's map keys; pipeline: English n<10^4 (quick: every 7th + boundaries; thorough: all), 10^k, 10^k±1, "
         'seeded n<10^15, x 8 variants x cardinal/ordinal x alone/carrier; es fr pt de it nl zh ja: generator output '
         'for n<2000 (quick: stride), 10^k±1 and seeded values in the generator range; non-trivial = distinct '
         '(culture, query) with at least one entity')
-ASSUMPTIONS = ['text_number_regex tokenisation and the extractor regexes are outside the model (pipeline + tokenisation tie)',
+ASSUMPTIONS = ['text_number_regex tokenisation: modelled (RTV.NumFrac.textTokens, alternation = the real pattern text: alts_are_pattern) for en-us, es-es, fr-fr, de-de and inside the statements on SAMPLES of numerals (Props/C04Text*); for every other numeral and for pt-br, it-it, nl-nl the specification token lists are tied to the REAL tokeniser by the harness on every run (tokenise-<culture>); the extractor regexes are outside the model (pipeline)',
                'values inside __get_int_value are modelled as naturals: exact while every intermediate value has at most 15 digits',
                'numeral generators of the non-English cultures are hand-written from the grammar (harness/corr/numerals.py)']
 
